@@ -144,6 +144,23 @@ Verdict first_fit(bool perm, const std::vector<El>& l, const std::vector<int>& r
   for (size_t m = 0; m < cur.size(); ++m) if (cur[m]) (m == 0 ? can_true : can_false) = true;
   return can_true && can_false ? V_EITHER : can_true ? V_ACCEPT : V_REJECT;
 }
+// "First-fit assignment taken in range order" read deterministically: each range member, in order, consumes the
+// first still-pending element matcher (in the current order of the pending list) that accepts it. Two natural ways of
+// keeping the pending list are simulated - stable erase (declaration order is kept) and swap-with-last - and an
+// order-dependent case is asserted only when both give the same verdict, so the check does not depend on how an
+// implementation stores its pending matchers, only on it being first-fit.
+bool det_first_fit(bool perm, const std::vector<El>& l, const std::vector<int>& r, bool swap_remove) {
+  std::vector<size_t> pend(l.size());
+  for (size_t i = 0; i < l.size(); ++i) pend[i] = i;
+  for (int x : r) {
+    size_t hit = pend.size();
+    for (size_t i = 0; i < pend.size(); ++i) if (acc(l[pend[i]], x)) { hit = i; break; }
+    if (hit == pend.size()) { if (perm) return false; continue; }
+    if (swap_remove) { pend[hit] = pend.back(); pend.pop_back(); }
+    else pend.erase(pend.begin() + static_cast<long>(hit));
+  }
+  return pend.empty();
+}
 // the property statement read directly, for non-overlapping lists: group the element matchers into classes with the
 // same acceptance set; includes <=> every class finds at least as many accepted members as it has matchers;
 // permutation <=> additionally the sizes agree and every member is accepted by some class
@@ -463,7 +480,7 @@ std::string g_last_fail;
 bool g_verbose = false;
 
 struct Counters {
-  uint64_t evals = 0, accept = 0, reject = 0, order_dependent_skipped = 0, overlapping_asserted = 0, non_overlapping = 0;
+  uint64_t evals = 0, accept = 0, reject = 0, order_dependent_skipped = 0, order_dependent_first_fit_asserted = 0, overlapping_asserted = 0, non_overlapping = 0;
   uint64_t by_rm[M_COUNT] = {}, by_form[F_COUNT] = {}, by_kind[K_COUNT] = {};
   uint64_t nt_dup_range = 0, nt_dup_list = 0, nt_len_off_by_one = 0, nt_empty_side = 0, nontrivial = 0;
   uint64_t batches = 0, form_unavailable = 0, excluded_perm_single = 0;
@@ -527,7 +544,9 @@ bool eval_one(const Batch& b, const LibFn& lib, RKind k, const std::vector<int>&
         exit(2);
       }
     } else if (o == V_EITHER) {
-      CN.order_dependent_skipped++;
+      bool a = det_first_fit(b.rm == M_PERM, b.l, r, false), c = det_first_fit(b.rm == M_PERM, b.l, r, true);
+      if (a == c) { o = a ? V_ACCEPT : V_REJECT; CN.order_dependent_first_fit_asserted++; }
+      else CN.order_dependent_skipped++;
     } else {
       CN.overlapping_asserted++;
     }
@@ -610,6 +629,7 @@ void flush_counters() {
   ST.label("evaluations_rejected", CN.reject);
   ST.label("matcher_objects_built", CN.batches);
   ST.label("order_dependent_skipped", CN.order_dependent_skipped);
+  ST.label("order_dependent_first_fit_asserted", CN.order_dependent_first_fit_asserted);
   ST.label("overlapping_but_every_choice_path_agrees", CN.overlapping_asserted);
   ST.label("includes_or_permutation_non_overlapping", CN.non_overlapping);
   for (int i = 0; i < M_COUNT; ++i) if (CN.by_rm[i]) ST.label(std::string("matcher_") + RM_NAME[i], CN.by_rm[i]);
